@@ -46,7 +46,7 @@ static void exec_seq(const Plan& pl, const RunCtl& ctl, RunOut& out) {
   for (int k = 0; k < pl.ntasks; ++k) work_exec_task(pl, k, ws, out.tasks[(size_t)k], ctl.model);
   work_shared_destroy(ws);
   out.steps = t->steps - steps0; out.allocs = t->total_allocs - a0; out.nt_allocs = t->total_nt_allocs - n0;
-  out.leaked = rt_alloc_stats().live_blocks - live0; out.peak = rt_alloc_stats().peak_bytes; out.maxreq = rt_alloc_stats().max_request;
+  out.leaked = rt_alloc_stats().live_blocks - live0; out.peak = rt_alloc_stats().peak_bytes;  // (cumulative baseline included; informational) out.maxreq = rt_alloc_stats().max_request;
   out.fault_fired = t->fault_fired; out.fault_guard = t->fault_guard; out.nothrow_failed = t->nothrow_failed;
   t->fault_op = -1; t->nothrow_fail_all = false; t->budget = ~0ull; t->step_limit = ~0ull;
   if (out.fault_fired) rt_arena_expect_leaks(); else rt_arena_preserve_live();
